@@ -341,6 +341,12 @@ def cat_sym(ctx, rule="CAT-SYM"):
     # drop_table selects catalog rows by the dropped table's name: Table / Table / Name columns
     S = Sym(prog, g)
     cols = sorted(a for b, n, args, t in symcalls(prog, g, S) if n.endswith("Expr::col") for a in args)
+    if len(cols) < 3:
+        # a local closure builds the filtered delete (`let delete_where = |table, column| Delete::from(table).with(Expr::col(column).eq(..))`), called once per catalog table
+        inner = [c for c in g.closures if any(cname(prog, t).endswith("Expr::col") for b, t in c.calls())]
+        ncalls = len([1 for b, t in g.calls() if re.search(r"ops::Fn(Mut|Once)?::call(_mut|_once)?$", t.get("callee") or "")])
+        if len(inner) == 1 and ncalls:
+            cols = cols + ["<closure arg>"] * ncalls
     ctx.check(len(cols) == 3, rule, "drop_table filters each catalog delete by the table name", str(cols), "drop_table builds %d column filters, expected 3" % len(cols), g.loc(), fn=g.name)
     un = [1 for b, t in g.calls() if (t.get("callee") or "").endswith("BTreeMap::<K, V, A>::remove")]
     ctx.check(len(un) == 1, rule, "drop_table unregisters the table", "", "drop_table does not remove the table from `tables` exactly once", g.loc(), fn=g.name)
@@ -404,10 +410,15 @@ def limits(ctx):
         if any(b in cfg.reachable(f, mb) for mb in muts) or k != "InvalidInput":
             continue
         facts = Sf.bool_facts_at(b)
-        if facts and facts[-1][1] is True and re.search(r"Vec::<T, A>::len\(&p3\) Gt c:32\)$", facts[-1][0]):
+        from ..lib import exceeds_facts, interval_of
+        if facts and any(n_ == 32 and re.search(r"Vec::<T, A>::len\(&p3\)", x) for (x, n_, g_) in exceeds_facts(facts[-1:])):
             ok32 = True
         if facts and facts[-1][1] is True and re.search(r"Vec::<T, A>::is_empty\(&p3\)$", facts[-1][0]):
             ok0 = True
+        if facts:
+            lo_, hi_, ex_ = interval_of(facts[-1:], "std::vec::Vec::<T, A>::len(&p3)")
+            if hi_ == 0:
+                ok0 = True  # `len() == 0` / `len() < 1`
     ctx.check(ok32 and ok0, R, "column count limits enforced", "", "create_table does not refuse `columns.len() > 32` / an empty column list before mutating", f.loc(), fn=f.name)
 
     limit_w(ctx)
